@@ -80,10 +80,15 @@ func (h *mapperHarness) open(t fataler) {
 	}
 }
 
+// nextUnits is the next append offset; 0 when the volume has reached the largest offset of this build
+// (Volume refuses writes beyond MaxPossibleVolumeSize).
 func (h *mapperHarness) nextUnits(t *rapid.T) int64 {
 	step := rapid.OneOf(rapid.Int64Range(1, 40), rapid.Int64Range(1, 1<<20)).Draw(t, "step")
 	if h.unit+step > maxUnits {
 		step = 1
+	}
+	if h.unit+step > maxUnits {
+		return 0
 	}
 	h.unit += step
 	return h.unit
@@ -278,7 +283,7 @@ func (h *mapperHarness) pick(t *rapid.T, label string, base uint64) (uint64, str
 }
 
 func TestPropNeedleMapperHistory(t *testing.T) {
-	vlib.Check(t, 500, 12000, func(t *rapid.T) {
+	vlib.Check(t, 320, 12000, func(t *rapid.T) {
 		kind := rapid.SampledFrom([]string{"memory", "memory", "leveldb"}).Draw(t, "kind")
 		h := &mapperHarness{kind: kind, dir: vlib.TempDir(), ref: newRef(), shadow: needle_map.NewCompactMap(), puts: map[uint64]int{}}
 		defer os.RemoveAll(h.dir)
@@ -295,13 +300,19 @@ func TestPropNeedleMapperHistory(t *testing.T) {
 		h.unit = rapid.SampledFrom(starts).Draw(t, "firstOffset")
 		sections := 1
 		if rapid.IntRange(0, 2).Draw(t, "prelude") > 0 {
-			n := rapid.IntRange(129, 300).Draw(t, "runN")
+			n := rapid.IntRange(129, 220).Draw(t, "runN")
 			stride := uint64(rapid.SampledFrom([]int{1, 2, 3, 10}).Draw(t, "stride"))
 			size := genSize(false).Draw(t, "runSize")
 			for i := 0; i < n; i++ {
-				h.put(t, base+uint64(i)*stride, h.nextUnits(t), size)
+				if u := h.nextUnits(t); u > 0 {
+					h.put(t, base+uint64(i)*stride, u, size)
+				}
 			}
-			h.ops = []string{fmt.Sprintf("Asc(%x,n=%d,stride=%d,offsets from %d,size=%d)", base, n, stride, h.idx[0].units, size)}
+			first := int64(0)
+			if len(h.idx) > 0 {
+				first = h.idx[0].units
+			}
+			h.ops = []string{fmt.Sprintf("Asc(%x,n=%d,stride=%d,%d offsets from %d to %d,size=%d)", base, n, stride, len(h.idx), first, h.unit, size)}
 		}
 		nOps := rapid.IntRange(1, 60).Draw(t, "nOps")
 		for i := 0; i < nOps; i++ {
@@ -314,10 +325,14 @@ func TestPropNeedleMapperHistory(t *testing.T) {
 					}
 					sections++
 				}
-				h.put(t, k, h.nextUnits(t), genSize(false).Draw(t, "size"))
+				if u := h.nextUnits(t); u > 0 {
+					h.put(t, k, u, genSize(false).Draw(t, "size"))
+				}
 			case "delete":
 				k, _ := h.pick(t, "del", base)
-				h.del(t, k, h.nextUnits(t))
+				if u := h.nextUnits(t); u > 0 {
+					h.del(t, k, u)
+				}
 			case "reload":
 				h.reload(t)
 			case "check":
